@@ -157,8 +157,8 @@ def spec_req(case, workdir, tag="spec"):
     txt = COQ_HEADER + "Definition h : list hstep :=\n  %s.\n" % em.history()
     txt += ('Definition nl := String (Ascii.ascii_of_nat 10) "".\n'
             'Definition show_req (r : step_req) := join nl ([sq_result r] ++ sq_log r ++ ["--tree"] ++ match sq_tree r with Some t => t | None => ["<unconstrained>"] end).\n'
-            'Eval vm_compute in join (nl ++ "@@STEP" ++ nl) (map show_req (ref_history %s %s h init_world)).\n'
-            % (cpath(case["cache"]), coq_str(case["name"])))
+            'Eval vm_compute in join (nl ++ "@@STEP" ++ nl) (map show_req (ref_history %s %s h %s)).\n'
+            % (cpath(case["cache"]), coq_str(case["name"]), world0(case)))
     rc, out = common.coq_eval(workdir, tag, txt, timeout=600)
     m = re.search(r'=\s*"(.*)"\s*:\s*string', out, re.S)
     if rc != 0 or not m:
